@@ -24,6 +24,26 @@ NAMES = ["clk", "rst", "data", "q", "cnt", "state", "a", "b", "sel", "x_1", "bus
 ENUM_LITS = ["idle", "run", "stop", "s0", "s1", "s2", "wait_ack", "done", "err", "a", "b", "c", "'a'", "'b'", "'x'", "false", "true", "red", "green"]
 
 
+def near_std_literals(rng):
+    base = rng.choice(["01", "UX01ZWLH-"])
+    form = rng.choice(["tick", "tick", "bare"])
+
+    def lit(c):
+        c = c.lower() if rng.random() < 0.3 else c
+        return f"'{c}'" if form == "tick" else c
+    r = rng.random()
+    if r < 0.35 and len(base) > 2:
+        chars = list(base[:rng.randint(2, len(base) - 1)])          # proper prefix
+    elif r < 0.7:
+        chars = list(base) + [rng.choice("ZXU-01")] * rng.randint(1, 2)   # extension
+    else:
+        chars = list(base)
+        chars[rng.randrange(len(chars))] = rng.choice("QRS")         # same length, one literal differs
+    if chars == ["0", "1"] or len(chars) == 9 and "".join(chars).upper() == "UX01ZWLH-":
+        chars.append("Z")
+    return [lit(c) for c in chars]
+
+
 class Gen:
     def __init__(self, rng, allow_alias=True, allow_structs=True, max_width=70, alias_prob=0.15, huge_names=False):
         self.rng = rng
@@ -76,6 +96,12 @@ class Gen:
         if r < 0.67:
             if rng.random() < 0.3:
                 return ("E", "boolean", "boolean", ["false", "true"])
+            if rng.random() < 0.25:
+                # character enums that are NOT bit / std_ulogic but begin like them: a proper prefix or an extension of
+                # ('0','1') / ('U','X','0','1','Z','W','L','H','-'), or the full list with one literal altered
+                lits = near_std_literals(rng)
+                ename = rng.choice(["tri", "logic3", "mvl"]) + str(len(lits))
+                return ("E", ename if rng.random() < 0.7 else "sub_" + ename, ename, lits)
             n = rng.choice([2, 3, 4, 5, 8, 9, 17])
             lits = rng.sample(ENUM_LITS, min(n, len(ENUM_LITS)))
             ename = rng.choice(["state_t", "mode_t", "color"]) + str(n)
@@ -267,7 +293,7 @@ def gen_pair(rng, nitems=None, nsteps=None):
     return ghw_writer.design_tokens(items, g.natoms, snap, steps), ghw, vcd
 
 
-def gen_triple(rng, nitems=None, nsteps=None):
+def gen_triple(rng, nitems=None, nsteps=None, dups=None):
     """one design as GHW, VCD and FST (C12 / C10). Restrictions of gen_pair; FST needs at least one signal."""
     from gen import vcd_writer, fst_writer
     while True:
@@ -298,5 +324,5 @@ def gen_triple(rng, nitems=None, nsteps=None):
         kk += 1
     vcd = vcd_writer.render(rng, items, g.natoms, snap, steps, exp=-15 + rng.randint(0, kk))
     fexp = -15 + rng.randint(0, kk)
-    fst = fst_writer.render(rng, items, g.natoms, snap, steps, exp=fexp)
+    fst = fst_writer.render(rng, items, g.natoms, snap, steps, exp=fexp, dups=dups)
     return ghw_writer.design_tokens(items, g.natoms, snap, steps), ghw, vcd, fst, fexp
